@@ -485,3 +485,52 @@ def r2_paren_init(R, t, ctype="double"):
             R.counts["R2-paren-init"] = R.counts.get("R2-paren-init", 0) + 1
         return "%s %s;" % (ctype, ", ".join(out))
     return rx.sub(repl, t)
+
+def hoist_lambda(R, t, hoisted_name, captures, ordinal=0, ret_default="void"):
+    """R7: hoist the ordinal-th lambda `[&](params) -> T { body }` of text t into a static C
+    function.  captures: list of (name, ctype, by_ref) appended BEFORE the lambda's own
+    parameters.  Handles `auto NAME = [&](..)->T{..};` (calls NAME(args) are rewritten) and
+    immediately invoked lambdas `[&](..)->T{..}(args)`.  Returns (function_text, new_t)."""
+    ms = list(re.finditer(r'\[&\]\s*\(([^)]*)\)\s*(?:->\s*([\w:]+)\s*)?(?=\{)', t))
+    if ordinal >= len(ms):
+        raise ExtractionBreak("R7: lambda #%d not found (have %d)" % (ordinal, len(ms)))
+    m = ms[ordinal]
+    params = m.group(1).strip()
+    rtype = m.group(2) or ret_default
+    e = match_close(t, m.end())
+    body = t[m.end():e + 1]
+    cap_params = ", ".join("%s %s%s" % (ct, '*' if ref else '', nm) for nm, ct, ref in captures)
+    cap_args = ", ".join(("&" + nm) if ref else nm for nm, ct, ref in captures)
+    for nm, ct, ref in captures:
+        if ref:
+            body = re.sub(r'(?<![\w.>])%s\b' % re.escape(nm), '(*%s)' % nm, body)
+    allp = ", ".join(x for x in (cap_params, params) if x)
+    fn = "static %s %s(%s)\n%s\n" % (rtype, hoisted_name, allp, body)
+    R.counts["R7-hoist"] = R.counts.get("R7-hoist", 0) + 1
+    # bound or immediately invoked?
+    pre = t[:m.start()]
+    post = t[e + 1:]
+    mb = re.search(r'auto\s+(\w+)\s*=\s*$', pre)
+    if mb:
+        nm = mb.group(1)
+        mp = re.match(r'\s*;', post)
+        if not mp:
+            raise ExtractionBreak("R7: bound lambda %s not terminated by ';'" % nm)
+        new_t = pre[:mb.start()] + post[mp.end():]
+        def call(mm, a):
+            return "%s(%s)" % (hoisted_name, ", ".join(x for x in (cap_args, a.strip()) if x))
+        new_t = balanced_call_sub(R, "R7-call", new_t, r'(?<![\w.>])%s\s*(?=\()' % nm, call)
+        hoist_lambda.fid_view = pre[:mb.start()] + fn + balanced_call_sub(Rules(), "x", post[mp.end():], r'(?<![\w.>])%s\s*(?=\()' % nm, call)
+        return fn, new_t
+    mi = re.match(r'\s*\(', post)
+    if not mi:
+        raise ExtractionBreak("R7: lambda is neither bound to a name nor immediately invoked")
+    k = len(pre) + (e + 1 - m.start()) + mi.end() - 1
+    # position of '(' in original t
+    k = e + 1 + mi.end() - 1
+    ce = match_close(t, k, '(', ')')
+    args = t[k + 1:ce]
+    new_t = pre + "%s(%s)" % (hoisted_name, ", ".join(x for x in (cap_args, args.strip()) if x)) + t[ce + 1:]
+    R.counts["R7-call"] = R.counts.get("R7-call", 0) + 1
+    hoist_lambda.fid_view = pre + fn + "%s(%s)" % (hoisted_name, ", ".join(x for x in (cap_args, args.strip()) if x)) + t[ce + 1:]
+    return fn, new_t
